@@ -107,6 +107,7 @@ class World:
         self.fs = FSState()
         self.frame = []
         self.opened = []
+        self.colreads = []          # (key, position) of every read data[key][position]
 
     def need_sequences(self):
         """facts about the two lists as SEQUENCES (length, element at a position): only added when the code asks for a length,
@@ -179,6 +180,14 @@ class SVarList:
     def __contains__(self, name):
         return SX.ctx().branch(self.pred(kid(name)))
 
+    def __bool__(self):
+        # truthiness of a list: non-empty
+        e = self.empty
+        return SX.ctx().branch(z3.Not(e) if z3.is_expr(e) else z3.BoolVal(not e))
+
+    def __len__(self):
+        raise SX.PathAbort('len() of a symbolic list of names')
+
     def __iadd__(self, lst):
         if isinstance(lst, SVarList):
             old, new = self.pred, lst.pred
@@ -207,6 +216,9 @@ class SVarList:
 class SIterList:
     """the caller's `it` list"""
     world = None
+
+    def __bool__(self):
+        raise SX.PathAbort('truth value of the symbolic iteration list')
 
     def __init__(self, pred):
         self.pred = pred
@@ -325,6 +337,7 @@ class SCol:
     def __getitem__(self, p):
         w = self.w
         pe = to_z3(p)
+        w.colreads.append((self.k, pe))
         if SX.ctx().branch(w.entnone(self.k, pe)):
             return None
         return SVal(w.ent(self.k, pe))
@@ -355,6 +368,9 @@ class SDataKeys:
     def __init__(self, w):
         self.w = w
 
+    def __bool__(self):
+        raise SX.PathAbort('truth value of the key view of the symbolic data dictionary')
+
     def __contains__(self, name):
         return SX.ctx().branch(self.w.indata(kid(name)))
 
@@ -365,6 +381,9 @@ class SData:
 
     def __iter__(self):
         raise SX.PathAbort('iteration over the symbolic data dictionary outside a loop contract')
+
+    def __bool__(self):
+        raise SX.PathAbort('truth value of the symbolic data dictionary')
 
     def __len__(self):
         raise SX.PathAbort('len() of the symbolic data dictionary')
@@ -389,6 +408,9 @@ class SData:
 class FKeys:
     def __init__(self, f):
         self.f = f
+
+    def __bool__(self):
+        raise SX.PathAbort('truth value of the dataset list of a file')
 
     def __contains__(self, name):
         nm = as_name(name)
@@ -653,7 +675,6 @@ class Driver:
             op = w.opened[nopen:]
             c.require("loop 0: the body opens exactly the file of its iteration, in append mode (the file exists afterwards, other files are not created)",
                       z3.BoolVal(len(op) >= 1 and all(z3.eq(z3.simplify(oi), z3.simplify(i)) and om == 'a' for oi, om in op)))
-            idx = loc2.get('it_index')
             if self.summary1 is None:
                 c.require('loop 0: the body runs the loop over the variables', z3.BoolVal(False))
                 raise SX.PathEnd()
@@ -690,12 +711,29 @@ class Driver:
             return
         if ordinal == 1:
             vs = its
-            f = loc.get('f')
             i = self.cur_i
-            idx = loc.get('it_index')
-            if not isinstance(idx, Z):
-                c.require('loop 1: it_index is an index into the columns of data', z3.BoolVal(False))
+            # which position of the columns does the body read?  found by a dry run of the body on a key whose column and entry
+            # exist (no path decision is recorded, every effect is undone) -- not by the name of a local variable
+            probe_k = c.new_int('probe')
+            snap_has, snap_val = w.fs.snapshot()
+            nlog, npc, nob, nrd, nop = len(w.fs.log), len(c.pc), len(c.obls), len(w.colreads), len(w.opened)
+            real_branch, real_require = c.branch, c.require
+            c.branch = lambda cond: not (z3.is_app(cond) and cond.decl().name() in ('colnone', 'entnone'))
+            c.require = lambda *a, **k_: None
+            try:
+                self.run_stmts(node.body, dict(loc, **{self.targets(node)[0]: SKey(probe_k)}))
+            except Exception:
+                pass
+            finally:
+                c.branch, c.require = real_branch, real_require
+                w.fs.has, w.fs.val = dict(snap_has), dict(snap_val)
+                del w.fs.log[nlog:], c.pc[npc:], c.obls[nob:], w.opened[nop:]
+            reads = [p_ for k_, p_ in w.colreads[nrd:] if z3.eq(k_, probe_k)]
+            del w.colreads[nrd:]
+            if not reads or any(not z3.eq(z3.simplify(r_), z3.simplify(reads[0])) for r_ in reads):
+                c.require('loop 1: the body reads data[key] at one position, the same for every variable', z3.BoolVal(False))
                 raise SX.PathEnd()
+            idx = Z(reads[0])
             # ---- inductive step from an arbitrary state, generic key of the list
             w.fs.arrays(sfx)
             entry_h, entry_v = w.fs.snapshot()
